@@ -25,3 +25,4 @@ THEOREMS["C06"] += ["Backend.C06_nothing_older_arrives", "Backend.C06_flush_log_
 # w2_prog: C09 under concurrent frontend activity (Props/C09Progress.lean)
 THEOREMS["C09"] += ["Backend.C09_retry_granted_once_queue_read", "Backend.C09_pass_reads_every_ripe_queue"]
 MODULES["C09"] += ["QuillModel.Props.C09Progress"]
+THEOREMS["C09"] += ["Backend.C09_blocked_queue_drains", "Backend.C09_blocked_call_resumes_concurrent"]
